@@ -229,6 +229,54 @@ def ControlsInStore (s : Sys) (o : OSet) (k : Key) : Bool :=
   | some c => isController .native (o.owner.ref true) c
   | none => false
 
+/-- `UniqueIdentifier()` of a stored object. -/
+def idOfKey (k : Key) : String := s!"{k.kind}/{k.ns}/{k.name}"
+
+/-- `status.controllerOf` of `o` is COMPLETE: it lists every object `o` controls in the store. -/
+def ReportsComplete (s : Sys) (o : OSet) : Prop :=
+  ∀ k, ControlsInStore s o k = true → idOfKey k ∈ reportedIds o
+
+/-- **od_archives_safely_when_reports_complete** (the sentence on the STORE, under the hypothesis the
+two findings violate): if a pass of the ObjectDeployment controller archives the `i`-th listed
+ObjectSet `x`, then `x` had reported `Paused=True`, and a newer revision reports Available — or `x`
+reports itself unavailable and there is a next newer revision `y` such that, PROVIDED
+`status.controllerOf` of `x` lists everything `x` controls in the store (`ReportsComplete`), no object
+`x` controls in the store is one `y` contains.  Finding C08-b is exactly a reachable state in which
+`ReportsComplete` fails (`truncated_controllerOf_counterexample`); finding C08-c is the other disjunct
+resting on a report (`Available`) that says nothing about control. -/
+theorem od_archives_safely_when_reports_complete (names : List String) (s : Sys) (i : Nat)
+    (h : Write.archive i ∈ (odPass names s).2.1) :
+    ∃ x ∈ listing names s, x.1 = i ∧ condTrue x.2.conds "Paused" = true ∧
+      ((∃ y ∈ listing names s, x.2.revision < y.2.revision ∧ condTrue y.2.conds "Available" = true) ∨
+       (condTrue x.2.conds "Available" = false ∧
+        ∃ y ∈ listing names s, x.2.revision < y.2.revision ∧
+          (∀ z ∈ listing names s, x.2.revision < z.2.revision → y.2.revision ≤ z.2.revision) ∧
+          (ReportsComplete s x.2 → ∀ k, ControlsInStore s x.2 k = true → idOfKey k ∉ specIds y.2))) := by
+  obtain ⟨r, hr, hid, hp, _, hcase⟩ := od_archives_only_if_reported names s i h
+  simp only [revsOf, List.mem_map] at hr
+  obtain ⟨x, hx, rfl⟩ := hr
+  refine ⟨x, hx, hid, hp, ?_⟩
+  rcases hcase with ⟨y, hy, hlt, hav⟩ | ⟨hun, y, hy, hnext, hcn, _⟩
+  · left
+    simp only [revsOf, List.mem_map] at hy
+    obtain ⟨x', hx', rfl⟩ := hy
+    exact ⟨x', hx', by simpa [revOf] using hlt, hav⟩
+  · right
+    simp only [revsOf, List.mem_map] at hy
+    obtain ⟨x', hx', rfl⟩ := hy
+    refine ⟨hun, x', hx', by simpa [revOf] using hnext.1, ?_, ?_⟩
+    · intro z hz hlt
+      have := hnext.2 (revOf (idUniverse (listing names s)) s.od.template z.1 z.2)
+        (by simp only [revsOf, List.mem_map]; exact ⟨z, hz, rfl⟩) (by simpa [revOf] using hlt)
+      simpa [revOf] using this
+    · intro hcomplete k hk hmem
+      have hrep := hcomplete k hk
+      simp only [revOf] at hcn
+      split at hcn
+      · exact hcn
+      · simp only [Pko.Model.ArchiveSpec.ControlsNothingIn, Pko.Model.Archive.Rev.allObjects, List.append_nil] at hcn
+        exact hcn _ (List.mem_map.mpr ⟨_, hrep, rfl⟩) (List.mem_map.mpr ⟨_, hmem, rfl⟩)
+
 def wObj (name payload : String) : PObj :=
   { kind := "NsThing", ns := "", name := name, cp := .prevent, payload := payload, presetOwnerRef := false, dryRun := .accept }
 
